@@ -403,6 +403,17 @@ def burst_script(rnd, uidpool):
         add(b, 'late-' + rnd.choice(uidpool))
         metas[len(cmds)] = {'what': 'queue'}; cmds.append('H\t%d\tGET /queue HTTP/1.1' % b)
     metas[len(cmds)] = {'what': 'queue'}; cmds.append('H\t%d\tGET /queue HTTP/1.1' % a)
+    if rnd.random() < 0.5:
+        # a second busy spell in the same daemon life, in which the other user cancels everything he has: his queue is empty then,
+        # whatever kind of checkpoint wrote it
+        cmds.append('K')
+        for i in range(rnd.choice([16, 17, 20])): add(a, 'again%d' % i)
+        mine = sorted(set(it['uid'] for k in metas if isinstance(metas[k], list) for it in metas[k] if it['kind'] == 'add' and it['peer'] == b))
+        for u in mine:
+            it = {'kind': 'cancel', 'uid': u, 'peer': b}; metas[len(cmds)] = [it]; cmds.append(areq(rnd, b, request([it], 'CANCEL')))
+        if rnd.random() < 0.7: cmds.append('K')
+        metas[len(cmds)] = {'what': 'queue'}; cmds.append('H\t%d\tGET /queue HTTP/1.1' % b)
+        metas[len(cmds)] = {'what': 'queue'}; cmds.append('H\t%d\tGET /queue HTTP/1.1' % a)
     return cmds, metas
 
 
